@@ -301,7 +301,7 @@ def factory_cases(draw):
 
 
 def subs(tier):
-    return [Sub("shape", shape_cases(), run_shape, quick=5000, thorough=20000),
-            Sub("scaling", scaling_cases(), run_scaling, quick=4000, thorough=15000),
-            Sub("causal", causal_cases(), run_causal, quick=2000, thorough=6000),
-            Sub("factory", factory_cases(), run_factory, quick=4000, thorough=15000)]
+    return [Sub("shape", shape_cases(), run_shape, quick=5000, thorough=200000),
+            Sub("scaling", scaling_cases(), run_scaling, quick=4000, thorough=150000),
+            Sub("causal", causal_cases(), run_causal, quick=2000, thorough=60000),
+            Sub("factory", factory_cases(), run_factory, quick=4000, thorough=150000)]
